@@ -123,9 +123,9 @@ theorem shared_secret_value (hp2 : p ≠ 2) (C : Ctx p a b) (env : Env Crv Curve
       exact ⟨by positivity, by exact_mod_cast ZMod.val_lt x⟩
 
 /-- the environment linked into the model driver (the one the correspondence run compares with the real code) is of
-this shape, for every curve table and every constructor table -/
-theorem driver_uses_curve_model (cs : Array EcdhWire.CParams) (t : EcdhWire.Table) :
-    UsesCurveModel (EcdhWire.env cs t) := ⟨fun _ _ => rfl, fun _ => rfl, fun _ => rfl⟩
+this shape, for every curve list -/
+theorem driver_uses_curve_model (cs : Array EcdhWire.CParams) :
+    UsesCurveModel (EcdhWire.env cs) := ⟨fun _ _ => rfl, fun _ => rfl, fun _ => rfl⟩
 
 /-- non-vacuity: the context of `Proofs/GroupInterface.lean` on y² = x³ + x + 6 over F₁₁ (n = 13) exists, the driver's
 environment shape satisfies `UsesCurveModel`, and the generator itself is a `KeyPoint` -/
